@@ -366,8 +366,8 @@ def main():
             # extraction fidelity: extracted C (executable stubs) vs. the real library on random call sequences
             import fidelity
             fid_futs = {}
-            for cname in sorted(set(c.name for c, g in todo if not g.native)):
-                if cname in ('pess', 'opt', 'zipf') and not a.group:
+            for cname in sorted(set({'epochb': 'epoch'}.get(c.name, c.name) for c, g in todo if not g.native)):
+                if cname in ('pess', 'opt', 'zipf', 'epoch') and not a.group:
                     fid_futs[cname] = ex.submit(fidelity.check, cname, a.tier, seed, os.path.join(workdir, 'fid_' + cname))
             for c, g in todo:
                 futs.append(ex.submit(run_group, c, g, metas[c.name], os.path.join(workdir, c.name), a.tier))
